@@ -1,11 +1,13 @@
 // Package refjcs is an independent RFC 8785 (JCS) reference: a strict RFC 8259 parser into its own value
 // type and a canonical serializer. It shares no code with the implementation under test.
-// Trusted: strconv (shortest round-trip digits / ParseFloat), unicode/utf16, unicode/utf8.
+// Trusted: strconv (shortest round-trip digits; ParseFloat for literals of at most 300 characters), math/big (longer
+// literals), unicode/utf16, unicode/utf8.
 package refjcs
 
 import (
 	"fmt"
 	"math"
+	"math/big"
 	"sort"
 	"strconv"
 	"strings"
@@ -216,7 +218,7 @@ func (p *parser) number() (*Value, *ParseError) {
 			return nil, p.fail(ErrOther, "bad number tail")
 		}
 	}
-	f, err := strconv.ParseFloat(string(p.b[start:i]), 64)
+	f, err := ParseDouble(string(p.b[start:i]))
 	if err != nil || math.IsInf(f, 0) || math.IsNaN(f) {
 		return nil, p.fail(ErrOther, "number out of range")
 	}
@@ -711,4 +713,48 @@ func MustCanonicalGo(x interface{}) []byte {
 		panic(err)
 	}
 	return b
+}
+
+// ParseDouble converts an RFC 8259 number literal to the nearest double. Short literals go through strconv; long
+// ones (strconv.ParseFloat keeps 800 digits and has been observed to misplace the decimal point beyond that, and to
+// stop reading exponents at 10000) are evaluated exactly with math/big.
+func ParseDouble(tok string) (float64, error) {
+	if len(tok) <= 300 {
+		return strconv.ParseFloat(tok, 64)
+	}
+	mant, expS := tok, ""
+	if i := strings.IndexAny(tok, "eE"); i >= 0 {
+		mant, expS = tok[:i], tok[i+1:]
+	}
+	exp := new(big.Int)
+	if expS != "" {
+		if _, ok := exp.SetString(strings.TrimPrefix(expS, "+"), 10); !ok {
+			return 0, fmt.Errorf("bad exponent in %q", tok)
+		}
+	}
+	neg := strings.HasPrefix(mant, "-")
+	digits := strings.Replace(strings.TrimPrefix(mant, "-"), ".", "", 1)
+	if strings.Trim(digits, "0") == "" {
+		if neg {
+			return math.Copysign(0, -1), nil
+		}
+		return 0, nil
+	}
+	bound := big.NewInt(int64(len(tok)) + 400)
+	if exp.CmpAbs(bound) > 0 {
+		// far outside the double range whatever the digits are
+		if exp.Sign() > 0 {
+			return math.Inf(1), fmt.Errorf("number out of range")
+		}
+		if neg {
+			return math.Copysign(0, -1), nil
+		}
+		return 0, nil
+	}
+	r, ok := new(big.Rat).SetString(tok)
+	if !ok {
+		return 0, fmt.Errorf("bad number %q", tok)
+	}
+	f, _ := r.Float64()
+	return f, nil
 }
